@@ -46,6 +46,9 @@ def sub_variants() -> Dict[str, Any]:
         "(RC)": [("P", ("L",), ("L",)), [R, C]],
         "[R(RC)]": [("S", ("L",), ("P", ("L",), ("L",))), [R, copy.deepcopy(R), C]],
         "[Tlm]": [("L",), [M.spec("Tlm", {"L": [2.0, 1e-24, inf, True]}, sub={"X_1": [("L",), [Q]]})]],
+        # only nested connections at the top level of the sub-circuit (no bare element)
+        "[(RC)(RC)]": [("S", ("P", ("L",), ("L",)), ("P", ("L",), ("L",))), [R, C, copy.deepcopy(R), copy.deepcopy(C)]],
+        "([RC][RC])": [("P", ("S", ("L",), ("L",)), ("S", ("L",), ("L",))), [R, C, copy.deepcopy(R), copy.deepcopy(C)]],
     }
 
 
@@ -80,7 +83,7 @@ def leaf_variants(thorough: bool) -> List[Tuple[str, dict]]:
     V.append(("limits-below-default-C", M.spec("C", {"C": [-1.5, -2.0, -1.0, False]})))
     for name, sv in sub_variants().items():
         V.append((f"sub-Zeta:{name}", M.spec("Tlm", sub={"Zeta": sv})))
-        if thorough or name in ("open", "short", "[RC]", "[Tlm]"):
+        if thorough or name in ("open", "short", "[RC]", "[Tlm]", "[(RC)(RC)]"):
             V.append((f"sub-X_1:{name}", M.spec("Tlm", sub={"X_1": sv, "Z_A": sub_variants()["(RC)"]})))
     V.append(("sub-all", M.spec("Tlm", {"L": [0.5, 1e-24, inf, False]}, label="tl",
                                  sub={"X_1": sub_variants()["[RC]"], "X_2": sub_variants()["[R]"], "Z_A": "short",
